@@ -175,7 +175,7 @@ namespace plan
     int super = -1;
     int super2 = -1;                  // a second base class (only among classes without fields or parameters)
     std::vector<std::string> rfields; // own real fields
-    std::vector<int> rfield_mode;     // per own real field: 0 set by the constructor's initialiser list only; 1 `real f = d;` AND a list entry (the list wins); 2 `real f = d;` only (no constructor parameter)
+    std::vector<int> rfield_mode;     // per own real field: 0 set by the constructor's initialiser list only; 1 `real f = d;` AND a list entry (the list wins); 2 `real f = d;` only (no constructor parameter); 3 `real f;` and nothing else: a free variable of each instance
     mpq_class rfield_default(size_t i) const { return mpq_class(41 + 2 * static_cast<long>(i)); }
     int rmode(size_t i) const { return i < rfield_mode.size() ? rfield_mode[i] : 0; }
     int ofield_class = -1;            // own object field "g" of that class (or -1)
@@ -221,6 +221,8 @@ namespace plan
     std::vector<std::string> rparams; // for a sub-predicate: the inherited parameters first, its own from 'own_from' on
     std::vector<std::string> fixed_params; // parameters every goal, fact and sub-goal must give a constant for (they are factors of a product in the rule)
     int super = -1;                   // index of the predicate it extends (global predicates only), or -1
+    std::string oparam;               // an object-typed parameter (`predicate P(real a, C1 ob)`), or empty
+    int oparam_cls = -1;
     int second_base_kind = 0;         // a sub-predicate of a plain predicate that is temporal through a SECOND base: `predicate P2() : P1, Interval`
     size_t own_from = 0;
     std::vector<std::shared_ptr<BodyItem>> body;
@@ -287,6 +289,13 @@ namespace plan
     std::vector<std::string> rr_cap_var; // "" or the x of `c - x`
     std::vector<int> sv_insts; // indices into insts of state-variable instances
     std::set<std::string> mentioned; // root names of every path used in some constraint / argument
+    std::map<std::string, int> mention_count;                 // how many times
+    std::map<std::string, std::pair<int, int>> oarg_use;      // object variable given as the object argument of a formula: (class of the parameter, unit of the statement)
+    void mention_root(const std::string &n)
+    {
+      mentioned.insert(n);
+      ++mention_count[n];
+    }
 
     // all real fields of a class, super first
     void all_rfields(int c, std::vector<std::string> &out) const
